@@ -64,9 +64,9 @@ def clampI64 (v : Int) : Int :=
   if v > 9223372036854775807 then 9223372036854775807
   else if v < -9223372036854775808 then -9223372036854775808 else v
 
-/-- One integer conversion on `s` (leading white space included): value and characters consumed;
+/-- One integer conversion on `s` (leading white space included): value and the rest of the input;
     `none`: input failure / matching failure. -/
-def scanInt (conv : IntConv) (width : Option Nat) (s : Bytes) : Option (Int × Nat) :=
+def scanInt (conv : IntConv) (width : Option Nat) (s : Bytes) : Option (Int × Bytes) :=
   let s0 := skipSpace s
   match s0 with
   | [] => none
@@ -86,7 +86,8 @@ def scanInt (conv : IntConv) (width : Option Nat) (s : Bytes) : Option (Int × N
     let s3 := if eatX then s2.drop 1 else s2
     let w3 := if eatX then wDec w2 else w2
     let base := if base1 = 0 then 10 else base1
-    let (ds, rest) := takeDigits base s3 w3
+    let ds := (takeDigits base s3 w3).1
+    let rest := (takeDigits base s3 w3).2
     if !zero && ds.isEmpty then none
     else
       let m := digitsVal base ds
@@ -94,7 +95,7 @@ def scanInt (conv : IntConv) (width : Option Nat) (s : Bytes) : Option (Int × N
         | .x => if m > 18446744073709551615 then 18446744073709551615
                 else if neg then ((18446744073709551616 - m) % 18446744073709551616 : Nat) else m
         | _ => clampI64 (if neg then -(m : Int) else m)
-      some (v, s.length - rest.length)
+      some (v, rest)
 
 /-- state of the float collection loop -/
 structure FState where
@@ -132,9 +133,9 @@ def matchWordCI : Bytes → Bytes → Option Bytes
   | _ :: _, [] => none
   | w :: ws, c :: r => if tolower c = w then matchWordCI ws r else none
 
-/-- One floating-point conversion (`%f`: `F = f32`, `%lf`: `F = f64`): bits and characters
-    consumed; `none`: input / matching failure. -/
-def scanFloat (F : FFmt) (s : Bytes) : Option (Nat × Nat) :=
+/-- One floating-point conversion (`%f`: `F = f32`, `%lf`: `F = f64`): bits and the rest of the
+    input; `none`: input / matching failure. -/
+def scanFloat (F : FFmt) (s : Bytes) : Option (Nat × Bytes) :=
   let s0 := skipSpace s
   match s0 with
   | [] => none
@@ -148,7 +149,7 @@ def scanFloat (F : FFmt) (s : Bytes) : Option (Nat × Nat) :=
     | c1 :: r1 =>
       if tolower c1 = 110 then          -- "nan"
         match matchWordCI [97, 110] r1 with
-        | some rest => some (sgn + F.nanBits, s.length - rest.length)
+        | some rest => some (sgn + F.nanBits, rest)
         | none => none
       else if tolower c1 = 105 then     -- "inf" / "infinity"
         match matchWordCI [110, 102] r1 with
@@ -158,10 +159,10 @@ def scanFloat (F : FFmt) (s : Bytes) : Option (Nat × Nat) :=
           | c2 :: r2 =>
             if tolower c2 = 105 then
               match matchWordCI [110, 105, 116, 121] r2 with
-              | some rest' => some (sgn + F.infBits, s.length - rest'.length)
+              | some rest' => some (sgn + F.infBits, rest')
               | none => none
-            else some (sgn + F.infBits, s.length - rest.length)
-          | [] => some (sgn + F.infBits, s.length - rest.length)
+            else some (sgn + F.infBits, rest)
+          | [] => some (sgn + F.infBits, rest)
       else
         -- "0" / "0x" prefix
         let zero := c1 = 48
@@ -169,13 +170,14 @@ def scanFloat (F : FFmt) (s : Bytes) : Option (Nat × Nat) :=
         let pre : Bytes := if hexa then [48, 120] else if zero then [48] else []
         let s2 := if hexa then r1.drop 1 else if zero then r1 else s1
         let st : FState := { gotDigit := zero && !hexa, gotE := false, gotDot := false, hexa := hexa, lastExp := false }
-        let (b, rest) := collectFloat s2 st
+        let b := (collectFloat s2 st).1
+        let rest := (collectFloat s2 st).2
         let buf := pre ++ b
         if buf.isEmpty || (hexa && buf.length = 2) then none
         else
           match strtodMag F buf with
           | none => none
-          | some (bits, _) => some (sgn + bits, s.length - rest.length)
+          | some (bits, _) => some (sgn + bits, rest)
 
 /-- characters up to (excluding) the next newline -/
 def takeNotNl : Bytes → Bytes × Bytes
@@ -195,15 +197,14 @@ def sscanfGo : List Dir → Bytes → Nat → List SVal → List SVal
   | .int conv w sup :: ds, s, k, acc =>
     match scanInt conv w s with
     | none => acc.reverse
-    | some (v, used) => sscanfGo ds (s.drop used) (k + used) (if sup then acc else .int v :: acc)
+    | some (v, r) => sscanfGo ds r (k + (s.length - r.length)) (if sup then acc else .int v :: acc)
   | .flt dbl sup :: ds, s, k, acc =>
     match scanFloat (if dbl then f64 else f32) s with
     | none => acc.reverse
-    | some (b, used) => sscanfGo ds (s.drop used) (k + used) (if sup then acc else .flt b :: acc)
+    | some (b, r) => sscanfGo ds r (k + (s.length - r.length)) (if sup then acc else .flt b :: acc)
   | .n :: ds, s, k, acc => sscanfGo ds s k (.pos k :: acc)
   | .notNl :: ds, s, k, acc =>
-    let (a, r) := takeNotNl s
-    if a.isEmpty then acc.reverse else sscanfGo ds r (k + a.length) acc
+    if (takeNotNl s).1.isEmpty then acc.reverse else sscanfGo ds (takeNotNl s).2 (k + (takeNotNl s).1.length) acc
 
 /-- `sscanf(input, fmt, …)`: the assigned values in order -/
 def sscanf (fmt : List Dir) (input : Bytes) : List SVal := sscanfGo fmt input 0 []
